@@ -85,7 +85,7 @@ type Operation struct {
 	input        defaultsAppliedOperationInput
 	outstanding  int
 	cond         chansync.BroadcastCond
-	stalled      chansync.LevelTrigger
+	stalled      chansync.Flag
 	stopping     chansync.SetOnce
 	stopped      chansync.SetOnce
 }
@@ -118,8 +118,11 @@ func (op *Operation) Stopped() events.Done {
 	return op.stopped.Done()
 }
 
+// The returned channel is ready while the operation is stalled. It's tied to the operation's state
+// under its lock, so once a call that adds nodes has returned, it isn't ready again until the new
+// nodes have been considered. Fetch it anew each time you wait.
 func (op *Operation) Stalled() events.Active {
-	return op.stalled.Active()
+	return op.stalled.On()
 }
 
 func (op *Operation) addNodeLocked(n types.AddrMaybeId) (err error) {
@@ -132,6 +135,11 @@ func (op *Operation) addNodeLocked(n types.AddrMaybeId) (err error) {
 		return
 	}
 	op.unqueried = op.unqueried.Add(n)
+	// Not stalled until the run loop has looked at the new node. Once stopping, the run loop may
+	// already have returned, and stalled stays set for good.
+	if !op.stopping.IsSet() {
+		op.stalled.Clear()
+	}
 	op.cond.Broadcast()
 	return nil
 }
@@ -185,9 +193,9 @@ func (op *Operation) haveQuery() bool {
 }
 
 func (op *Operation) run() {
-	defer close(op.stalled.Signal())
 	op.mu.Lock()
 	defer op.mu.Unlock()
+	defer op.stalled.Set()
 	for {
 		if op.stopping.IsSet() {
 			return
@@ -195,14 +203,12 @@ func (op *Operation) run() {
 		for op.outstanding < op.input.Alpha && op.haveQuery() {
 			op.startQuery()
 		}
-		var stalled events.Signal
-		if (!op.haveQuery() || op.input.Alpha == 0) && op.outstanding == 0 {
-			stalled = op.stalled.Signal()
-		}
+		// Set under the lock, and cleared under the lock by whatever adds nodes, so that a stall
+		// computed before an addition is never reported after it.
+		op.stalled.SetBool((!op.haveQuery() || op.input.Alpha == 0) && op.outstanding == 0)
 		queryCondSignaled := op.cond.Signaled()
 		op.mu.Unlock()
 		select {
-		case stalled <- struct{}{}:
 		case <-op.stopping.Done():
 		case <-queryCondSignaled:
 		}
